@@ -81,6 +81,14 @@ def shape_directive(kind, n):
     return sh
 
 
+def shape_quoted(B):
+    # the token text as the scanner delivers it: quote, any characters (a quote only after a backslash is the scanner's business: ANY text here), quote
+    text = B.text("token_text", [("lit", "'"), ("run", "body", "ab'\\ ", 0), ("lit", "'")])[0]
+    tok = B.inst("a816.parse.tokens.Token", type=B.enum("a816.parse.tokens.TokenType", "QUOTED_STRING"), value=text, position=None)
+    eof = B.inst("a816.parse.tokens.Token", type=B.enum("a816.parse.tokens.TokenType", "EOF"), value="", position=None)
+    return {"p": B.inst("a816.parse.parser.Parser", tokens=B.list([tok, eof]), pos=0, initial_state=None)}
+
+
 def cases(E):
     cs = [Case(H + "data_statement_bytes_contract", f".{k} with {n} values, from tokens", shape_directive(k, n), drop_overrides=["a816.parse.ast.expression.eval_expression"],
                target=["a816.parse.parser_states.parse_keyword", "a816.parse.parser_states.parse_expression_list_inner", "a816.parse.codegen._code_gen"])
@@ -95,6 +103,8 @@ def cases(E):
                    overrides={"a816.parse.nodes.open": "vf.specs.stubs.open_model"}))
     cs.append(Case(H + "binary_node_contract", "any content, any in-window LoROM address", shape_bin,
                    target=[N + "BinaryNode.emit", N + "BinaryNode.pc_after"]))
+    cs.append(Case(H + "quoted_string_directive_contract", "a QUOTED_STRING token of any text (quotes and backslashes inside included)", shape_quoted,
+                   target=["a816.parse.parser_states.parse_directive_with_quoted_string"]))
     from vf.props import expansion
     cs += expansion.c07_cases(E)
     return cs
